@@ -75,12 +75,37 @@ CLAIMS = {
 }
 NA = {}
 
+# clauses added in seeding round 5 (DESIGN.md 9.5 "Round 5")
+ROUND5 = {
+ "C01": "Registry deletes are made under an identity check in the same critical section (imported from C11.R3).",
+ "C03": "A replaced or stopped timer cannot fire, the expiring timer unregisters itself in the critical section of its identity check, timer phases are local (imported from C14.R1/R2/R3/R5).",
+ "C04": "The transport close routine performs every step on every path and a local close always reaches it (imported from C13.R1/R8).",
+ "C05": "The loop over reported mDNS entries has no early exit; dial targets keep the bracketed form of IPv6 literals (no net.JoinHostPort on a pre-bracketed host); no receive-side message size limit (imported from C06.R7).",
+ "C06": "A failed transport write ends the connection (imported from C13.R2); every call of a gorilla connection method is listed and none limits the size of a received message.",
+ "C07": "Any textual Replace on document bytes counts as a structural rewrite, also through regexp; the rewrite returns its argument unchanged only behind both failed container type tests (no depth cut-off).",
+ "C08": "No function of the repository returns with a mutex it acquired still locked (may-lockset at returns; lock wrappers exempt).",
+ "C09": "Nothing deletes from the hub's service registry; the decode path performs no context-free byte removal (imported from C07.R1).",
+ "C10": "A local close always closes the transport, also when the close frame cannot be written (imported from C13.R8/R1).",
+ "C11": "A handler that moves to an end state handles it (imported from C04.R4); every constructed connection is registered unconditionally (imported from C05.R4).",
+ "C12": "The write deadline is armed before every write and never cleared; the close handler performs no unsynchronised write.",
+ "C13": "A local close reaches the close routine on every path; the error result of every transport write wrapper is acted on.",
+ "C14": "The timer stop/start that belongs to a state change happens in the critical section that publishes the state; a handled waiting value stops or replaces the running timer on every path.",
+ "C15": "Every exported Hub method with a SKI parameter reaches map accesses - its own and those inside ServiceForSKI - only behind an unconditional normalisation of that value.",
+ "C16": "An optional TXT key or QR field is conditional on its own announced value only; mandatory QR fields are emitted unconditionally.",
+ "C17": "Every report from the mDNS layer reaches the application callback on every path; the reader demands every mandatory key the writer emits (imported from C16.R1).",
+ "C18": "Registry entries of closed connections are removed under the identity check (imported from C11.R3); the close path stops the handshake timer (imported from C04.R3).",
+ "C19": "A successful start leaves auto-reconnect enabled; a resolved service reaches the callback on every path of the add handler.",
+ "C20": "Fields of the websocket connection that are confined to the pumps are stored before the pumps start.",
+}
+
 props = [json.loads(l) for l in open(os.path.join(D, "properties.jsonl"))]
 checks, na = [], []
 for p in props:
     i = p["id"]
     if i in CLAIMS:
         tech, text, ref = CLAIMS[i]
+        if i in ROUND5:
+            text = text + " Round 5: " + ROUND5[i]
         checks.append({
             "property_id": i,
             "quick_cmd": f"./check.sh {i} quick",
